@@ -73,7 +73,7 @@ def main():
         meta['verification'] = verify(mdir); print(json.dumps(meta['verification'], indent=1))
     else:
         d = run(mdir, sys.argv[3:]); meta.setdefault('detection', {}).update(d)
-        for p, r in d.items(): print(p, 'CAUGHT' if r['exit'] != 0 else 'missed', r['violation'] or '', '|', (r['first_problem'] or '')[:200])
+        for p, r in d.items(): print(p, 'CAUGHT' if r['violation'] else ('ERROR(no verdict)' if r['exit'] != 0 else 'missed'), r['violation'] or '', '|', (r['first_problem'] or '')[:200])
     json.dump(meta, open(mp, 'w'), indent=1)
 
 if __name__ == '__main__':
